@@ -46,6 +46,10 @@ claim("C02", "edge dominance of delivery emits by the open-state test, who-may-e
       "Static skeleton of once-in-order inbound delivery: every delivery emit in onPacket is dominated by ReadyState()==open and message/data are emitted only there, once each on the MESSAGE edge with the packet's own Data; polling.OnData stops at a close packet and hands each loop variable to OnPacket once; a websocket/webtransport frame is decoded as exactly one packet with the buffer kind matching the frame type and only on the read-success edge; the dispatch chain contains no go statement (delivery order = payload order); candidate transports are never wired to onPacket; JSONP bodies are taken from the d field only. Decoding correctness for all payload shapes (external parser, regexp semantics) and byte identity are not decided.",
       TB, "DESIGN.md §3 C02")
 
+claim("C18", "must-precede/once queries on go/cfg, who-may-mutate the callback queues, who-may-emit transport drain, interprocedural may-held-lock analysis (synchronous call graph + the repo's listener wiring, deferred calls LIFO) intersected with the locks re-acquirable from Send/Write/Close",
+      "Static rules over engine/socket.go and the transports: packetCreate once before buffering; the flush/drain skeleton (session and server events around one Send, same batch value, only on a non-empty hand-off to a writable transport); exactly one callback group pushed per hand-off on every path, one popped per transport drain, run in slice order, queues mutated only by flush/onDrain/OnClose/sendPacket and cleared before the close event; transports emit drain only on send completion; no application code (session/server Emit, SendCallback, AllowRequest, middleware) runs with a mutex held that Send/Close can re-acquire — violated at four emits under flushMu in flush (listed findings, deterministic self-deadlock). Queue alignment under drains racing with the next flush for all schedules is not decided.",
+      TB, "DESIGN.md §3 C18")
+
 UNDER_CONSTRUCTION = "static rule set designed in DESIGN.md §3 but its checker is not built yet in this revision; not claimed until it is"
 
 def main():
